@@ -578,7 +578,7 @@ impl Check for C01 {
         let mut setup = gen::hazard_setup(rng, 40);
         if rng.chance(1, 5) {
             // a main program + interrupt routine (RETI, entry sequence, DI windows) under real key presses
-            let irq = gen::IrqOpts { enable_key: true, di_windows: rng.bool(), nested_ei: rng.chance(1, 4), isr_work: rng.bool(), enable_by_store: rng.bool(), mask_windows: false, mid_stop: false };
+            let irq = gen::IrqOpts { enable_key: true, di_windows: rng.bool(), nested_ei: rng.chance(1, 4), isr_work: rng.bool(), enable_by_store: rng.bool(), mask_windows: false, mid_stop: false, isr_ei_first: false };
             let o = gen::HazardOpts { len: 6 + rng.usize(30), wild: false, run_into_io: false, with_ei: true, irq: Some(irq) };
             setup.image.bytes = gen::hazard_program(rng, o);
             setup.image.stack = *rng.pick(&[0u8, 32, 64]);
